@@ -20,3 +20,10 @@ func init() {
 func init() {
 	properties["SYMMOV"] = &propSpec{ID: "SYMMOV", Quick: tierSpec{Harnesses: []harnessSpec{{Func: gp + "internal/zzverif.VSymMov", Digits: 6, Reach: []string{"symmov.end"}}}}}
 }
+
+func init() {
+	properties["C01"] = &propSpec{ID: "C01",
+		Quick:    tierSpec{Harnesses: []harnessSpec{{Func: gp + "internal/zzverif.VC01", Discover: 3, Reach: []string{"c01.decode.accepted"}}}},
+		Thorough: tierSpec{Harnesses: []harnessSpec{{Func: gp + "internal/zzverif.VC01", Discover: 3, Params: map[string]int{"alldigits": 1, "allregs": 1}, Reach: []string{"c01.decode.accepted"}}}},
+	}
+}
